@@ -138,6 +138,8 @@ type pipeHalf struct {
 	cond   *sync.Cond
 	buf    []byte
 	closed bool
+	// eofWithData: the read that drains a closed half returns its bytes together with io.EOF
+	eofWithData bool
 }
 
 func newHalf() *pipeHalf {
@@ -172,6 +174,9 @@ func (h *pipeHalf) read(p []byte, maxChunk int) (int, error) {
 	}
 	n = copy(p[:n], h.buf)
 	h.buf = h.buf[n:]
+	if h.eofWithData && h.closed && len(h.buf) == 0 {
+		return n, io.EOF // the last bytes arrive together with the end of the stream (allowed by io.Reader)
+	}
 	return n, nil
 }
 
@@ -206,6 +211,14 @@ func (d *Duplex) Close() error {
 // CloseWrite ends this end's outgoing direction: the peer reads what is pending and then io.EOF
 // (a garbled stream then ends in an error instead of a reader blocked for ever).
 func (d *Duplex) CloseWrite() { d.out.close() }
+
+// EOFWithData makes this end's reads return the final bytes together with io.EOF once the peer has
+// closed its writing side.
+func (d *Duplex) EOFWithData() {
+	d.in.mu.Lock()
+	d.in.eofWithData = true
+	d.in.mu.Unlock()
+}
 
 func (d *Duplex) LocalAddr() net.Addr                { return addr("duplex-local") }
 func (d *Duplex) RemoteAddr() net.Addr               { return addr("duplex-remote") }
